@@ -215,10 +215,10 @@ class Component(BaseObject):
         glyph = self.glyph
         if glyph is None:
             return False
-        font = self.font
-        if font is None:
+        layer = self.layer
+        if layer is None:
             return False
-        pen = PointInsidePen(glyphSet=font, testPoint=(x, y), evenOdd=evenOdd)
+        pen = PointInsidePen(glyphSet=layer, testPoint=(x, y), evenOdd=evenOdd)
         self.draw(pen)
         return pen.getResult()
 
